@@ -39,6 +39,7 @@ EXCS = {"ZeroDivisionError": ZeroDivisionError, "KeyError": KeyError, "NotImplem
 
 def setup(tier):
     common.install(td_modules=("ramses_tx.parsers", "ramses_tx.message"))
+    import ramses_rf.entity_base  # noqa: F401
     import ramses_rf.gateway  # noqa: F401
 
 
@@ -93,6 +94,27 @@ def run_snapshot(env, n):
     g = G.mk_gateway(handler, ds, dd, [G._Dev(msgs)])
     inc = env.flag("include_expired")
     out = None
+    if env.flag("already_paused"):
+        # another operation (a restore in progress) holds the engine paused: the snapshot must refuse and leave
+        # that pause exactly as it is
+        g._pause("held-by-restore")
+        before = (g._engine_state, g._protocol._msg_handler, g._disable_sending, g.config.disable_discovery, list(g._protocol.calls), list(g._transport.calls))
+        try:
+            g.get_state(include_expired=inc)
+            res = "returned"
+        except RuntimeError:
+            res = "refused"
+        except Exception as e:  # noqa: BLE001
+            res = f"raised {type(e).__name__}"
+        after = (g._engine_state, g._protocol._msg_handler, g._disable_sending, g.config.disable_discovery, list(g._protocol.calls), list(g._transport.calls))
+        env.check(res == "refused" and after == before, "C13:a-snapshot-during-another-pause-leaves-that-pause-alone", info=f"{res}; engine_state {'kept' if after[0] == before[0] else 'changed'}")
+        try:
+            args = g._resume()  # the holder's own resume must still work
+            ok = list(args) == ["held-by-restore"] and not G.engine_as_before(g, handler, ds, dd)
+        except RuntimeError as e:
+            args, ok = f"RuntimeError: {e}", False
+        env.check(ok, "C13:the-holder-of-the-pause-can-still-resume", info=str(args)[:80])
+        return res, None, msgs, inc
     try:
         out = g.get_state(include_expired=inc)
         res = "returned"
@@ -129,7 +151,8 @@ def run_restore(env):
     handler = lambda m: None  # noqa: E731
     ds, dd = env.flag("disable_sending"), env.flag("disable_discovery")
     g = G.mk_gateway(handler, ds, dd, [])
-    f_proto, f_tx, f_task = env.flag("protocol_factory_fails"), env.flag("transport_factory_fails"), env.flag("replay_task_fails")
+    f_proto, f_tx = env.flag("protocol_factory_fails"), env.flag("transport_factory_fails")
+    f_task = env.choice("replay_task", ["completes", "raises", "cancelled", "never-completes-and-the-restore-is-cancelled"])
     loop = VLoop(0)
 
     def protocol_factory(*a, **k):
@@ -144,9 +167,11 @@ def run_restore(env):
         class T:
             def get_extra_info(self, name, default=None):
                 fut = loop.create_future()
-                if f_task:
+                if f_task == "raises":
                     fut.set_exception(RuntimeError("injected: replay task"))
-                else:
+                elif f_task == "cancelled":
+                    fut.cancel()
+                elif f_task == "completes":
                     fut.set_result(None)
                 return fut
 
@@ -157,8 +182,14 @@ def run_restore(env):
     try:
         with running(loop):
             task = loop.create_task(g._restore_cached_packets({G.T0 % 1: dict(G.FRAMES)["I-30C9"]}))
+        if f_task.startswith("never"):
+            loop.call_later(1, task.cancel)  # the caller gives up (timeout / aborted start-up)
         loop.run(until=task)
-        res = "returned" if task.exception() is None else f"raised {type(task.exception()).__name__}"
+        loop.run()
+        if task.cancelled():
+            res = "raised CancelledError"
+        else:
+            res = "returned" if task.exception() is None else f"raised {type(task.exception()).__name__}"
     finally:
         GW.protocol_factory, GW.transport_factory = saved
     bad = G.engine_as_before(g, handler, ds, dd)
@@ -170,9 +201,58 @@ def h_restore(ctx):
     return run_restore(Env(ctx=ctx))
 
 
+def h_view_kernel(ctx, head, pay, off, w):
+    """the read kernel behind the attribute views (_msg_value_msg) on any decodable message: never raises"""
+    import symx
+    from checks import c14
+    from checks import decode as D
+    from ramses_tx.message import Message
+    from ramses_tx.packet import Packet
+
+    payload = pay[:off] + (symx.sym_hex(ctx, "w", w) if w else "") + pay[off + w :]
+    try:
+        msg = Message(Packet.from_file(D.DTM, head + payload))
+    except Exception:  # noqa: BLE001
+        return "not-decoded"
+    gwy = c14._Gwy(lambda: msg.dtm)
+    msg._gwy = gwy
+    ent = c14._entity(gwy)
+    p = msg.payload
+    keys = [None] + ([k for k in p][:4] if isinstance(p, dict) else ([k for k in p[0]][:3] if p and isinstance(p, list) and isinstance(p[0], dict) else []))
+    zones = [None]
+    if isinstance(p, list) and p and isinstance(p[0], dict) and "zone_idx" in p[0]:
+        zones.append(p[0]["zone_idx"])
+    for key in keys:
+        for z in zones:
+            try:
+                ent._msg_value_msg(msg, key=key, zone_idx=z)
+            except Exception as e:  # noqa: BLE001
+                ctx.check(False, "C13:attribute-read-kernel-never-raises", info=f"{type(e).__name__} key={key}")
+                return "raised"
+    ctx.check(True, "C13:attribute-read-kernel-never-raises")
+    return "ok"
+
+
 def queries(tier, seed):
     thorough = tier == "thorough"
-    qs = [Query(f"snapshot[n={n}]", lambda c, n=n: h_snapshot(c, n), {"h": "snapshot", "n": n}, group="snapshot", max_secs=900 if thorough else 240, max_paths=300_000, weight=n, split_depth=6) for n in ((1, 2) if not thorough else (1, 2, 3))]
+    from checks import c01
+
+    vq = []
+    for verb, code, head, pay in c01._bases(3 if thorough else 2):
+        if verb not in (" I", "RP"):
+            continue
+        offs = range(0, len(pay), 4) if (thorough or code in ("1FC9", "0418", "3220", "000C", "0005", "0404")) else [0]
+        for off in offs:
+            w = min(4, len(pay) - off)
+            vq.append(Query(f"view[{verb}|{code}|{len(pay) // 2}@{off}]", lambda c, a=(head, pay, off, w): h_view_kernel(c, *a), {"h": "view", "head": head, "pay": pay, "off": off, "w": w}, group="view", max_secs=60, max_paths=5000,
+                            mode=("bv" if code == "3220" else "int")))
+    for (verb, code), ls in sorted(c01._admissible_lengths(4).items()):
+        if verb in (" I", "RP") and ls and code != "3220":
+            n = ls[0]
+            for tag, addrs in (("bcast", "01:145038 --:------ 01:145038"), ("to", "37:154011 28:126620 --:------")) if verb == " I" else (("to", "01:145038 18:006402 --:------"),):
+                head = f"045 {verb} --- {addrs} {code} {n:03d} "
+                vq.append(Query(f"viewfull[{verb}|{code}|{n}|{tag}]", lambda c, a=(head, "00" * n, 0, 2 * n): h_view_kernel(c, *a), {"h": "view", "head": head, "pay": "00" * n, "off": 0, "w": 2 * n}, group="view", max_secs=90, max_paths=20000))
+    qs = vq + [Query(f"snapshot[n={n}]", lambda c, n=n: h_snapshot(c, n), {"h": "snapshot", "n": n}, group="snapshot", max_secs=900 if thorough else 240, max_paths=300_000, weight=n, split_depth=6) for n in ((1, 2) if not thorough else (1, 2, 3))]
     qs.append(Query("restore", h_restore, {"h": "restore"}, group="restore", max_secs=120))
 
     def canary(c):
@@ -189,6 +269,29 @@ def queries(tier, seed):
 
 def replay(item):
     common.plain_imports()
+    if item["params"]["h"] == "view":
+        from checks import c14
+        from checks import decode as D
+        from ramses_tx.message import Message
+        from ramses_tx.packet import Packet
+
+        prm = item["params"]
+        pay = prm["pay"][: prm["off"]] + item["cex"].get("w", "") + prm["pay"][prm["off"] + prm["w"] :]
+        line = prm["head"] + pay
+        msg = Message(Packet.from_file(D.DTM, line))
+        gwy = c14._Gwy(lambda: msg.dtm)
+        msg._gwy = gwy
+        ent = c14._entity(gwy)
+        p = msg.payload
+        keys = [None] + ([k for k in p][:4] if isinstance(p, dict) else ([k for k in p[0]][:3] if p and isinstance(p, list) and isinstance(p[0], dict) else []))
+        zones = [None] + ([p[0]["zone_idx"]] if isinstance(p, list) and p and isinstance(p[0], dict) and "zone_idx" in p[0] else [])
+        for key in keys:
+            for z in zones:
+                try:
+                    ent._msg_value_msg(msg, key=key, zone_idx=z)
+                except Exception as e:  # noqa: BLE001
+                    return {"reproduced": True, "observed": f"{line!r} -> {p!r}: _msg_value_msg(key={key!r}, zone_idx={z!r}) raised {type(e).__name__}: {e}"[:500], "signature": f"view kernel raises {type(e).__name__} [{line[41:45]}]"}
+        return {"reproduced": False, "observed": f"{line!r}: reads fine", "signature": None}
     env = Env(cex=item["cex"])
     if item["params"]["h"] == "snapshot":
         res, out, msgs, inc = run_snapshot(env, item["params"]["n"])
@@ -197,4 +300,6 @@ def replay(item):
     failed = [l for l, _ in env.failed]
     infos = [i for l, i in env.failed if l == item["label"]]
     what = "get_state" if item["params"]["h"] == "snapshot" else "_restore_cached_packets"
-    return {"reproduced": item["label"] in failed, "observed": f"{what} {res}: {infos[:1]}"[:500], "signature": f"{what} leaves the engine changed when it raises" if "raised" in res else f"{what}: {item['label'].split(':', 1)[1]}"}
+    lab = item["label"].split(":", 1)[1]
+    sig = f"{what} leaves the engine changed when it raises" if ("raised" in res and "engine-as-before" in lab) else f"{what}: {lab}"
+    return {"reproduced": item["label"] in failed, "observed": f"{what} {res}: {infos[:1]}"[:500], "signature": sig}
